@@ -128,9 +128,12 @@ type Grammar struct {
 	Prods     []*Prod  `json:"prods"`
 	Unions    []Union  `json:"unions"` // Unions[0] is the root: type Root struct{ V U0 `@@` }
 	Lookahead int      `json:"lookahead"`
-	CI        []string `json:"ci,omitempty"`      // case-insensitive token types
-	Elide     []string `json:"elide,omitempty"`   // elided token types
-	Profile   string   `json:"profile,omitempty"` // lexer profile: "" stateful test lexer, "scanner" default text/scanner lexer
+	CI        []string `json:"ci,omitempty"`    // case-insensitive token types
+	Elide     []string `json:"elide,omitempty"` // elided token types
+	// ExtraElide: names given to a further Elide() option that the lexer does not define (a misspelt option: Build
+	// either rejects it or the parser works; the reference parser ignores it)
+	ExtraElide []string `json:"extra_elide,omitempty"`
+	Profile    string   `json:"profile,omitempty"` // lexer profile: "" stateful test lexer, "scanner" default text/scanner lexer
 	// Static names a hand-written family of Go struct types (static.go) that the productions are rendered as instead
 	// of reflect.StructOf types: the only way to get productions that contain themselves directly (F *Self `@@`).
 	Static string `json:"static,omitempty"`
@@ -647,6 +650,9 @@ func (g *Grammar) Types() []reflect.Type {
 func (g *Grammar) String() string {
 	var sb strings.Builder
 	fmt.Fprintf(&sb, "lexer=%s lookahead=%d ci=%v elide=%v\n", g.Prof().Name, g.Lookahead, g.CI, g.Elide)
+	if len(g.ExtraElide) > 0 {
+		fmt.Fprintf(&sb, "further option Elide(%q)\n", g.ExtraElide)
+	}
 	for i, u := range g.Unions {
 		fmt.Fprintf(&sb, "U%d =", i)
 		for j, m := range u.Members {
